@@ -445,7 +445,20 @@ func c18(tier string) int {
 			return &sumdbServer{hashes: srvAll.hashes, size: int64(cur), latest: cpsGet(cps, u, origin, cur)}
 		}
 		var bad []string
+		outage := 0 // the next so many requests are answered 503 (an outage of the log that ends)
 		tr := roundTripFunc(func(r *http.Request) (*http.Response, error) {
+			if err := r.Context().Err(); err != nil {
+				return nil, err
+			}
+			pmu.Lock()
+			down := outage > 0
+			if down {
+				outage--
+			}
+			pmu.Unlock()
+			if down {
+				return &http.Response{StatusCode: 503, Status: "503 Service Unavailable", Body: io.NopCloser(strings.NewReader("try later")), Header: http.Header{}, Request: r}, nil
+			}
 			sv := srvFor()
 			resp, err := sv.RoundTrip(r)
 			pmu.Lock()
@@ -460,6 +473,11 @@ func c18(tier string) int {
 		for step, size := range []int{300, 700, 1100, 1200, 1201} {
 			pmu.Lock()
 			cur = size
+			if step == 1 || step == 3 {
+				// Whatever the client keeps per failed request (a slot, a
+				// connection, a counter) adds up over an outage.
+				outage = 7
+			}
 			pmu.Unlock()
 			deadline := time.Now().Add(60 * time.Second)
 			for pw.Size() != uint64(size) && time.Now().Before(deadline) {
@@ -501,7 +519,7 @@ func c18(tier string) int {
 	run.Set("evaluations", evals)
 	run.Set("distinct_nontrivial", int(evals))
 	run.Set("exhaustive", true)
-	run.Set("rule", fmt.Sprintf("base URLs: host only, and (reduced coordinate set / pairs up to 40 + tile boundaries + the large pairs) with a one- and a two-segment path component - every request must stay below the base; addressing: for every level 0..7, every index 0..2100 plus every carry boundary of the x%%03d encoding up to 10^9 (+-1), widths 1..256 (all widths on indices <= 40 and around multiples of 1000, 8 boundary widths elsewhere): the path requested by SumDBClient.TileData / FullLeavesAtOffset / PartialLeavesAtOffset (observed at the HTTP transport) equals tlog.Tile.Path(). Proofs: the real sumdb.FeedLog (interval 0) for ALL pairs 1 <= from < to <= %d plus 59 pairs reaching up to 70 000 leaves (full tiles above level 0, the same tile index at two levels within one proof) against an in-process server that serves /latest and tlog tiles of a generated tree and rejects any tile that does not exist at that size or is requested with a wrong width; the proof handed to the witness must verify with the independent RFC 6962 reference and merkle/proof, and (boundary pairs and every 7th pair) be accepted by the real witness. distinct_nontrivial = coordinates + feed cycles, all distinct by construction", maxN))
+	run.Set("rule", fmt.Sprintf("base URLs: host only, and (reduced coordinate set / pairs up to 40 + tile boundaries + the large pairs) with a one- and a two-segment path component - every request must stay below the base; addressing: for every level 0..7, every index 0..2100 plus every carry boundary of the x%%03d encoding up to 10^9 (+-1), widths 1..256 (all widths on indices <= 40 and around multiples of 1000, 8 boundary widths elsewhere): the path requested by SumDBClient.TileData / FullLeavesAtOffset / PartialLeavesAtOffset (observed at the HTTP transport) equals tlog.Tile.Path(). Polling: one FeedLog call follows five growths, two of them after an outage of seven 503 answers. Proofs: the real sumdb.FeedLog (interval 0) for ALL pairs 1 <= from < to <= %d plus 59 pairs reaching up to 70 000 leaves (full tiles above level 0, the same tile index at two levels within one proof) against an in-process server that serves /latest and tlog tiles of a generated tree and rejects any tile that does not exist at that size or is requested with a wrong width; the proof handed to the witness must verify with the independent RFC 6962 reference and merkle/proof, and (boundary pairs and every 7th pair) be accepted by the real witness. distinct_nontrivial = coordinates + feed cycles, all distinct by construction", maxN))
 	return run.Finish()
 }
 
